@@ -242,6 +242,25 @@ fn run(case: &HashMap<String, String>) -> String {
             let budget = 32 * bytes.len() + 1024;
             format!("{{\"outcome\":\"{}\",\"allocated\":{},\"budget\":{}}}", if used > budget { "alloc" } else { "ok" }, used, budget)
         }
+        "question_rt" => {
+            let mut fails: Vec<&str> = Vec::new();
+            let mut pos = 0usize;
+            match crate::Question::parse(&bytes, &mut pos) {
+                Ok(q) => {
+                    let mut out = Vec::new();
+                    if q.write_to(&mut out).is_err() || out != bytes { fails.push("bytes"); }
+                    if q.len() != bytes.len() { fails.push("len"); }
+                    if pos != bytes.len() { fails.push("fields"); }
+                    let tl = bytes.len();
+                    let code = u16::from_be_bytes([bytes[tl - 4], bytes[tl - 3]]);
+                    if u16::from(q.qtype) != code { fails.push("fields"); }
+                    if q.unicast_response != (bytes[tl - 2] & 0x80 != 0) { fails.push("fields"); }
+                    if u16::from(q.qclass) != (u16::from_be_bytes([bytes[tl - 2], bytes[tl - 1]]) & 0x7FFF) { fails.push("fields"); }
+                }
+                Err(_) => fails.push("parse"),
+            }
+            format!("{{\"outcome\":\"ok\",\"fails\":[{}]}}", fails.iter().map(|s| format!("\"{}\"", s)).collect::<Vec<_>>().join(","))
+        }
         "packet_frame" => {
             let wp: usize = case["walker_pos"].parse().unwrap();
             let mut fails: Vec<&str> = Vec::new();
